@@ -38,9 +38,19 @@ TICK_STRUCTS = {
     "loaded_loop": "load('lib.star', 'lf')\nemit(lf(P))\n",
     "map_calls": "x = map(lambda v: v, range(P // 2))\nemit(len(x))\n",
     "mixture": "def g(n):\n    return [k for k in range(n)]\nfor i in range(P // 20):\n    g(8)\n    sorted([3, 1, 2], key = lambda v: v)\n    if i % 16 == 0:\n        emit(i)\n",
+    # pairs whose tick counts must coincide: the same work with the callee defined locally / loaded from a frozen module
+    "calls_local": "def f1(x):\n    return x + 1\nfor i in range(P // 2):\n    f1(i)\n    if i % 64 == 0:\n        emit(i)\n",
+    "calls_loaded": "load('lib.star', 'f1')\nfor i in range(P // 2):\n    f1(i)\n    if i % 64 == 0:\n        emit(i)\n",
+    "rec_local": "def r1(n):\n    return 0 if n == 0 else 1 + r1(n - 1)\nfor i in range(P // 25):\n    r1(24)\nemit(r1(P % 25))\n",
+    "rec_loaded": "load('lib.star', 'r1')\nfor i in range(P // 25):\n    r1(24)\nemit(r1(P % 25))\n",
+    "chain_local": "def inc(x):\n    return x + 1\ndef lf2(n):\n    t = 0\n    for i in range(n):\n        t = inc(t)\n    return t\nemit(lf2(P // 2))\n",
+    "chain_loaded": "load('lib.star', 'lf2')\nemit(lf2(P // 2))\n",
     "in_def": "def main():\n    t = 0\n    for i in range(P):\n        t += i\n        if i % 64 == 0:\n            emit(i)\n    return t\nemit(main())\n",
 }
-TICK_LIB = [["lib.star", "def lf(n):\n    t = 0\n    for i in range(n):\n        t += 1\n    return t\n"]]
+TICK_LIB = [["lib.star", "def lf(n):\n    t = 0\n    for i in range(n):\n        t += 1\n    return t\n"
+             "def f1(x):\n    return x + 1\ndef r1(n):\n    return 0 if n == 0 else 1 + r1(n - 1)\n"
+             "def inc(x):\n    return x + 1\ndef lf2(n):\n    t = 0\n    for i in range(n):\n        t = inc(t)\n    return t\n"]]
+TICK_PAIRS = [("calls_local", "calls_loaded"), ("rec_local", "rec_loaded"), ("chain_local", "chain_loaded")]
 
 
 def run(tier):
@@ -134,6 +144,14 @@ def run(tier):
             continue
         T[(name, p)] = o["steps"][0]["ticks"]
         base[(name, p)] = o["steps"][0]["out"]
+    # the tick count of a piece of work must not depend on whether its callees are frozen (loaded) or not
+    for a_, b_ in TICK_PAIRS:
+        for p in range(0, PMAX + 1, step):
+            checks += 1
+            if (a_, p) in T and (b_, p) in T and T[(a_, p)] != T[(b_, p)]:
+                res.violation(f"C15:tick-count-depends-on-callee:{b_}", {"p": p, "ticks_local": T[(a_, p)], "ticks_loaded": T[(b_, p)],
+                                                                        "local": TICK_STRUCTS[a_], "loaded": TICK_STRUCTS[b_]})
+                break
     # determinism of the count: second run of a subset
     sub = [(i, m) for i, m in enumerate(tmeta) if m[1] % 97 == 0]
     again = vlib.run_sut("run", [tspecs[i] for i, _ in sub])
